@@ -197,7 +197,19 @@ def run(ctx):
             auth.append(("nosuchclient", u))
     hops += ["auth %s %s" % (nm, c.hexs(u)) for nm, u in auth]
     hops += ["lauth %s %s" % (nm, c.hexs(u)) for nm, u in auth]
+    # the first requests after start-up, many at the same moment (round 5, seeded C13-7): every verdict any of the
+    # concurrent callers gets must be the verdict the same client gives that URL on its own
+    nburst = 40 if ctx.quick() else 400
+    burst_idx = list(range(min(24, len(urls)))) + [ctx.rng.randrange(len(urls)) for _ in range(nburst - min(24, len(urls)))]
+    if ctx.replay:
+        burst_idx = list(range(len(urls)))
+    nb0 = len(hops)
+    hops += ["burst %s %d" % (c.hexs(urls[i]), 12) for i in burst_idx]
     impl, log, rc = c.run_harness(ctx, "cmd/keymasterd", "C13", hops)
+    burst_lines = impl[nb0:] if len(impl) == len(hops) else []
+    impl_all, hops_all = impl, hops
+    if len(impl) == len(hops):
+        impl, hops = impl[:nb0], hops[:nb0]
     if rc != 0 or len(impl) != len(hops):
         ctx.broken.append("harness TestVerifC13 did not complete (exit %d, %d/%d lines)" % (rc, len(impl), len(hops)))
         return c.finish(ctx)
@@ -241,6 +253,24 @@ def run(ctx):
             lverd.append(lv)
             lcors.append(lc)
             lgc.append(f[-1][1:])
+    # ---------------------------------------------------------------- concurrent first use
+    nb_mixed = 0
+    for i, line in zip(burst_idx, burst_lines):
+        for tok in line.split():
+            nm, vset = tok.split("=", 1)
+            want = verd[i][nm] + cors[i][nm]
+            for v in vset.split("|"):
+                if v == want or not v:
+                    continue
+                nb_mixed += 1
+                what = "client %s answered %r to one of 12 simultaneous first requests for %r, and %r on its own" % (nm, v, urls[i], want)
+                if v.startswith("A") and not want.startswith("A"):
+                    c.add_violation(ctx, "concurrent-first-use:accepted", "concurrent-first-use: " + what +
+                                    " (the decision the validator takes alone is the one the theorems are about: this acceptance is outside it)",
+                                    {"url_hex": urls[i].hex(), "client": nm, "burst_line": line, "alone": want})
+                else:
+                    ctx.broken.append("correspondence under concurrency: " + what)
+    ctx.coverage["concurrent_first_use"] = {"bursts": len(burst_lines), "callers_per_burst": 12, "verdicts_differing_from_sequential": nb_mixed}
     views = [("", verd, cors, gc, auth_lines)]
     if loaded:
         views.append(("[state built by loadVerifyConfigFile from a configuration file] ", lverd, lcors, lgc, lauth_lines))
